@@ -79,10 +79,14 @@ struct E12 { int32_t a, b, c; };
 static var E12 = Cello(E12);
 static struct E12 e12val(int64_t v) { struct E12 x = { (int32_t)v, (int32_t)(v ^ 0x5555), (int32_t)(~v) }; return x; }
 
-static double fltval(int64_t v) { return v == 7777 ? -0.0 : (double)v * 0.25; }
+/* 7777.. are special values: -0.0 and distinct doubles closer together than any float can tell apart */
+static double fltval(int64_t v) {
+  switch (v) { case 7777: return -0.0; case 7778: return 2.2250738585072014e-308; case 7779: return 4.9406564584124654e-324;
+               case 7780: return 1e-300; case 7781: return 2e-300; default: return (double)v * 0.25; }
+}
 static int64_t normv(int et, int64_t v) {
   if (et == ET_STR) { int64_t m = v % NSTR; return m < 0 ? m + NSTR : m; }
-  if (et == ET_FLT) { if (v == 7777) return v; int64_t m = v % 4001; return m; }
+  if (et == ET_FLT) { if (v >= 7777 && v <= 7781) return v; int64_t m = v % 4001; return m; }
   return v;
 }
 static const char* strval(int64_t v) { return g_strpool[normv(ET_STR, v)]; }
@@ -157,7 +161,7 @@ static int64_t seqval(int et, int64_t x) {
   if (et == ET_INT) { int64_t m = ((x % 200) + 200) % 200; return m < NBND ? BND[m] : (m % 17) - 5; }
   if (et == ET_TOK || et == ET_CKEY) return ((x % 40) + 40) % 40;
   if (et == ET_P12) return ((x % 60) + 60) % 60 - 10;
-  if (et == ET_FLT) { int64_t m = ((x % 50) + 50) % 50; return m == 0 ? 0 : m == 1 ? 7777 : normv(et, x); }
+  if (et == ET_FLT) { int64_t m = ((x % 50) + 50) % 50; return m == 0 ? 0 : (m >= 1 && m <= 5) ? 7776 + m : normv(et, x); }
   return normv(et, x);
 }
 
@@ -645,7 +649,9 @@ static int seq_readback(Cont* c, int64_t* out, int cap) {
       for (int j = 0; j < g_npool; j++) if (g_pool[j] is p) { idx = j; break; }
       out[n++] = idx;
     } else switch (c->kt) {
-      case ET_FLT: { double d = c_float(p); int64_t q = (int64_t)(d * 4.0); out[n++] = (d == 0.0 && signbit(d)) ? 7777 : q; break; }
+      case ET_FLT: { double d = c_float(p); int64_t q = (int64_t)(d * 4.0);
+                     for (int64_t sp = 7777; sp <= 7781; sp++) { double w = fltval(sp); if (memcmp(&w, &d, sizeof d) == 0) q = sp; }
+                     out[n++] = q; break; }
       case ET_STR: { int64_t f = -1; for (int j = 0; j < NSTR; j++) if (!strcmp(g_strpool[j], c_str(p))) { f = j; break; } out[n++] = f; break; }
       case ET_P12: out[n++] = ((struct E12*)p)->a; break;
       default: out[n++] = c_int(p);
@@ -1227,23 +1233,47 @@ struct P3 { unsigned char a, b, c; };
 struct P20 { int64_t a, b; int32_t c; };
 static var P12 = Cello(P12);
 static var P3 = Cello(P3);
+struct P76 { int32_t w[19]; };
+static var P76 = Cello(P76);
 static var P20 = Cello(P20);
 
 static void do_swapv(const Op* o) {
   progress(g_opidx, "C10", "swapv");
-  int t = (int)(((o->a[0] % 6) + 6) % 6);
-  var T = t == 0 ? P12 : t == 1 ? P3 : t == 2 ? P20 : t == 3 ? Int : t == 4 ? Float : String;
-  size_t n = t == 0 ? sizeof(struct P12) : t == 1 ? sizeof(struct P3) : t == 2 ? sizeof(struct P20) : 8;
+  int t = (int)(((o->a[0] % 7) + 7) % 7);
+  var T = t == 0 ? P12 : t == 1 ? P3 : t == 2 ? P20 : t == 3 ? Int : t == 4 ? Float : t == 5 ? String : P76;
+  size_t n = t == 0 ? sizeof(struct P12) : t == 1 ? sizeof(struct P3) : t == 2 ? sizeof(struct P20) : t == 6 ? sizeof(struct P76) : 8;
   var x, y;
-  if (t <= 2) {
+  char cls[96];
+  static char sb[2][400];
+  if (t <= 2 || t == 6) {
     x = new_raw_with(T, tuple()); y = new_raw_with(T, tuple());
     unsigned char* px = x; unsigned char* py = y;
     for (size_t i = 0; i < n; i++) { px[i] = (unsigned char)(o->a[1] * 31 + (int64_t)i * 7 + 1); py[i] = (unsigned char)(o->a[2] * 17 + (int64_t)i * 13 + 2); }
   } else if (t == 3) { x = new_raw(Int, $I(o->a[1])); y = new_raw(Int, $I(o->a[2] + 1)); }
-  else if (t == 4) { x = new_raw(Float, $F(fltval(normv(ET_FLT, o->a[1])))); y = new_raw(Float, $F(fltval(normv(ET_FLT, o->a[2])) + 0.5)); }
-  else { x = new_raw(String, $S((char*)strval(o->a[1]))); y = new_raw(String, $S((char*)strval(o->a[2] + 1))); }
+  else if (t == 4) { x = new_raw(Float, $F(fltval(seqval(ET_FLT, o->a[1])))); y = new_raw(Float, $F((o->a[2] & 1) ? fltval(seqval(ET_FLT, o->a[2] / 2)) : fltval(normv(ET_FLT, o->a[2])) + 0.5)); }
+  else if ((o->a[1] & 1) == 0) { x = new_raw(String, $S((char*)strval(o->a[1]))); y = new_raw(String, $S((char*)strval(o->a[2] + 1))); }
+  else {
+    /* longer strings (0..260 characters) whose characters sit at every alignment: the value is the same wherever it is */
+    for (int k = 0; k < 2; k++) {
+      int64_t sd = k ? o->a[2] : o->a[1]; int len = (int)(((sd / 2) % 261 + 261) % 261); char* u = sb[k] + ((sd / 600) & 7);
+      for (int i = 0; i < len; i++) u[i] = (char)('!' + (sd * 7 + i * 11 + k) % 90);
+      u[len] = 0;
+      var h = new_raw(String, $S(u));
+      if (!eq($S(u), h) || hash($S(u)) != hash(h)) viol("C10", "C10:hash-depends-on-address:String", "a %d character String hashes differently in place (offset %d) and as a heap instance", len, (int)((sd / 600) & 7));
+      if (k) y = h; else x = h;
+    }
+    stat_add("c10.unaligned_strings", 1);
+  }
+  if (t <= 2 || t == 6) {
+    /* the same plain values embedded in an Array (elements at header+size strides, i.e. other alignments) */
+    var arr = new_raw(Array, T); push(arr, x); push(arr, y); push(arr, x);
+    for (int i = 0; i < 3; i++) { var e = get(arr, $I(i)); var rf = i == 1 ? y : x;
+      if (!eq(e, rf) || hash(e) != hash(rf)) { snprintf(cls, sizeof cls, "C10:hash-depends-on-address:%s", c_str(T)); viol("C10", cls, "a %s value embedded in an Array is not eq to / hashes unlike the heap instance it was assigned from", c_str(T)); } }
+    del_raw(arr);
+  }
+  if (eq(x, y) != eq(y, x)) { snprintf(cls, sizeof cls, "C10:eq-not-symmetric:%s", c_str(T)); viol("C10", cls, "eq of two %s values depends on the argument order", c_str(T)); }
+  if (eq(x, y) && hash(x) != hash(y)) { snprintf(cls, sizeof cls, "C10:eq-but-hash-differs:%s", c_str(T)); viol("C10", cls, "two %s values are eq and hash differently", c_str(T)); }
   var x0 = copy(x), y0 = copy(y);        /* copies (managed, kept on this frame) are the reference values */
-  char cls[96];
   if (!eq(x0, x) || hash(x0) != hash(x)) { snprintf(cls, sizeof cls, "C10:copy-not-equal:%s", c_str(T)); viol("C10", cls, "copy of a %s value is not eq / hashes differently", c_str(T)); }
   swap(x, y);
   if (!eq(x, y0) || !eq(y, x0) || hash(x) != hash(y0) || hash(y) != hash(x0)) {
@@ -1463,7 +1493,8 @@ static void do_bad(const Op* o) {
       case 1: what = "concat-null"; acc = X_VALUE; try { concat(obj, NULL); } catch (e) { ex = e; } break;
       case 2: what = "concat-no-c_str"; acc = X_CLASS | X_VALUE | X_TYPE; try { concat(obj, $I(5)); } catch (e) { ex = e; } break;
       case 3: what = "unimplemented-class"; acc = X_CLASS; try { push(obj, $I(1)); } catch (e) { ex = e; } break;
-      case 4: what = "assign-null"; acc = X_VALUE; try { assign(obj, NULL); } catch (e) { ex = e; } break;
+      case 4: if (x & 1) { what = "assign-null"; acc = X_VALUE; try { assign(obj, NULL); } catch (e) { ex = e; } }
+              else { what = "assign-no-c_str"; acc = X_CLASS | X_VALUE | X_TYPE; try { assign(obj, $I(42)); } catch (e) { ex = e; } } break;
       default: { /* C19: in-place operations on a stack String */
         prop = "C19"; progress(g_opidx, "C19", "bad-stack-string");
         char lit[16] = "stack"; var s = $S(lit);
@@ -1639,7 +1670,7 @@ static void containers_generate(Plan* p, Rng* r) {
   }
   int nops = rng_chance(r, 7, 10) ? 8 + (int)rng_below(r, 40) : 40 + (int)rng_below(r, 230);
   int mode = 0, mode_left = 0, seqctr = (int)rng_below(r, 64);
-  int badpct = focus == 12 ? 22 : focus == 19 ? 14 : (focus == 0 || focus == 5 || focus == 2 || focus == 3 || focus == 4) ? 3 : 0;
+  int badpct = focus == 12 ? 22 : focus == 19 ? 14 : (focus == 0 || focus == 5 || focus == 2 || focus == 3 || focus == 4 || focus == 16) ? 3 : 0;
   for (int step = 0; step < nops && p->nops < MAXOPS - 8; step++) {
     if (mode_left-- <= 0) { mode = (int)rng_below(r, 4); mode_left = 6 + (int)rng_below(r, 40); }
     if (g_nlive() == 0) { gen_new(p, r, focus); continue; }
@@ -1669,7 +1700,7 @@ static void containers_generate(Plan* p, Rng* r) {
       continue; }
     if (d < (uint32_t)(focus == 10 ? 22 : 13)) { plan_add(p, O_TWIN, 0, fault, ca, rng_below(r, 4), 0, 0, 0, 0); continue; }
     if (d < (uint32_t)(focus == 10 ? 24 : 15)) { plan_add(p, O_CHECK, 0, fault, ca, 0, 0, 0, 0, 0); continue; }
-    if ((focus == 10 || focus == 0) && d < 30) { plan_add(p, O_SWAPV, 0, 0, rng_below(r, 6), (int64_t)rng_below(r, 1000), (int64_t)rng_below(r, 1000), 0, 0, 0); continue; }
+    if ((focus == 10 || focus == 0) && d < 30) { plan_add(p, O_SWAPV, 0, 0, rng_below(r, 7), (int64_t)rng_below(r, 1000000), (int64_t)rng_below(r, 1000000), 0, 0, 0); continue; }
     d = rng_below(r, 100);
     if (g->kind == K_STRING) {
       int64_t m = rng_below(r, 7), x = (int64_t)rng_below(r, 100000);
